@@ -216,7 +216,12 @@ def run(chk):
             impl_strs.append((k or a, None, None))
             if k is None:
                 fail("error-kind", lines[3 * i], a, "t + d neither gives a date-time nor a range error")
-        items.append(("show_case (%d)%%Z %s" % (t * 10 ** 9, coq_q(Fraction(d))), "@"))
+        if d == 0:
+            items.append(("show_case (%d)%%Z %s" % (t * 10 ** 9, coq_q(Fraction(0))), "@"))
+        else:
+            mm, ee = math.frexp(abs(d))
+            items.append(("show_case_f64 (%d)%%Z %s %d%%positive (%d)%%Z" % (
+                t * 10 ** 9, "true" if d < 0 else "false", int(mm * 2 ** 53), ee - 53), "@"))
     model = common.coq_mismatches(["Time.Model", "Time.Exec"], items, "c19", shard_size=200,
                                   prelude="From Coq Require Import QArith ZArith.") if proved else {}
     mismatches = []
@@ -229,14 +234,12 @@ def run(chk):
                     mismatches.append({"source": lines[3 * i], "implementation": o_exact[3 * i], "model": ms})
                 continue
             mp = ms.split(";")
-            if len(mp) != 3 or not mp[0].startswith("D:"):
+            if len(mp) < 3 or not mp[0].startswith("D:"):
                 mismatches.append({"source": lines[3 * i], "implementation": o_exact[3 * i], "model": ms})
                 continue
-            dm = int(mp[0][2:]) - inst
-            if dm == 0 and s == mp[0] + ";" + mp[1] + ";":
-                continue
-            if abs(dm) <= 1 and mp[1] == "D:%d" % (t * 10 ** 9):
-                one_ns += 1          # fract*1e9 rounded in f64 vs exactly
+            if len(mp) > 3 and mp[3] not in ("0", "x"):
+                one_ns += 1          # the exact-rational model of the theorems differs by this many ns (f64 product fract*1e9)
+            if s == mp[0] + ";" + mp[1] + ";":
                 continue
             mismatches.append({"source": lines[3 * i], "implementation": ";".join(o_exact[3 * i:3 * i + 3]), "model": ms})
 
@@ -305,7 +308,8 @@ def run(chk):
                 "3 evaluations each; unit cases: durations in every time unit; zone cases: IANA zones x instants with microseconds "
                 "(conversion and parse-after-format); non-trivial = duration with a sub-second part, or a unit/zone case; distinct by input",
         "exhaustive": False,
-        "exact_model_cases": len(exact), "model_mismatches": len(mismatches), "one_ns_float_product_differences_tolerated": one_ns,
+        "exact_model_cases": len(exact), "model_mismatches": len(mismatches),
+        "cases_where_exact_rational_model_differs_by_1ns_from_f64_refinement": one_ns,
         "exact_case_outcomes": dict(outcome_hist),
         "unit_cases": len(unit_cases), "zone_cases": len(zone_cases), "oracle_failures": len(fails),
         "samples": [{"source": all_lines[i], "implementation": outs[i]} for i in (0, len(lines), len(lines) + len(ulines) + 1, len(all_lines) - 1)],
